@@ -116,6 +116,9 @@ CASES = [
 
     def _get_non_nominal_seconds(self):
 """)]),
+    ("same", "R3 stored refactor notes/refactors/R3.diff (hoisted local and chained assignments in __init__, any() in "
+     "__bool__, early return in to_weeks, isinstance with a tuple, renamed locals)",
+     [("PATCH", "/verif/notes/refactors/R3.diff")]),
     ("break", "B1 wrong constant: months counted as DAYS_IN_WEEK days in get_days_and_seconds", [
         ("""                    self._months * CALENDAR.ROUGH_DAYS_IN_MONTH +
 """, """                    self._months * CALENDAR.DAYS_IN_WEEK +
@@ -185,6 +188,32 @@ CASES = [
      [("PATCH", "/verif/seeded/C11-days-seconds-trunc/patch.diff")]),
     ("break", "S3 seeded C11-rough-year-constant (ROUGH_DAYS_IN_YEAR a class constant 365)",
      [("PATCH", "/verif/seeded/C11-rough-year-constant/patch.diff")]),
+    ("break", "B13 _type_checker lets years be a float (an int slot could hold a float)", [
+        ("""            (years, "years", int, None),""", """            (years, "years", int, float, None),""")]),
+    ("break", "B14 __init__ stores hours and minutes crosswise", [
+        ("""        self._hours = hours
+        self._minutes = minutes
+        self._seconds = seconds
+""", """        self._hours = minutes
+        self._minutes = hours
+        self._seconds = seconds
+""")]),
+    ("break", "B15 __init__ stores an int-or-float parameter in the int slot _months", [
+        ("""        self._months = months
+""", """        self._months = minutes
+""")]),
+    ("break", "B16 chained assignment that forgets _seconds when switching to week form", [
+        ("""            self._hours, self._minutes, self._seconds = (None, None, None)
+""", """            self._hours = self._minutes = None
+""")]),
+    ("break", "B17 __bool__ as any() over a list that omits _seconds", [
+        ("""        for attr in self.__slots__:
+            if getattr(self, attr, None):
+                return True
+        return False
+""", """        return any(getattr(self, attr, None) for attr in
+                   ["_years", "_months", "_weeks", "_days", "_hours", "_minutes"])
+""")]),
     ("break", "B11 a new slot in __slots__ (state record out of date)", [
         ("""                 "_hours", "_minutes", "_seconds"]
 
